@@ -2,7 +2,7 @@
 
 package sniff
 
-// C03 parts "c03sniff" / "c03sniffx": hostile first bytes against the protocol sniffer
+// C03 part "c03sniff": hostile first bytes against the protocol sniffer
 // (extras/sniff: Sniffer.TCP over a scripted stream, Sniffer.UDP and the QUIC Initial parser
 // behind it: header, packet protection removal, CRYPTO frame extraction / assembly).
 //
@@ -16,8 +16,8 @@ package sniff
 // or after (header fields: connection-id lengths, token length, packet length). Canary: after
 // every burst a well-formed HTTP request, TLS ClientHello and QUIC Initial must still be sniffed
 // (destination rewritten to the name they carry).
-// c03sniff keeps to datagrams whose first byte has the long-header bit, the only form an
-// Initial packet can have; c03sniffx is the corner without it.
+// Three runs in four keep to datagrams whose first byte has the long-header bit, the only form
+// an Initial packet can have; the fourth is the corner stratum without it.
 
 import (
 	"crypto"
@@ -39,10 +39,8 @@ import (
 )
 
 func TestSim(t *testing.T) {
-	hysim.Main(t,
-		&hysim.Harness{Name: "c03sniff", Gen: func(r *hysim.Rand, tier string) *hysim.Script { return genC03Sniff(r, tier, false) }, Exec: execC03Sniff},
-		&hysim.Harness{Name: "c03sniffx", Gen: func(r *hysim.Rand, tier string) *hysim.Script { return genC03Sniff(r, tier, true) }, Exec: execC03Sniff},
-	)
+	// one run in four is the corner stratum: datagrams whose first byte lacks the long-header bit
+	hysim.Main(t, &hysim.Harness{Name: "c03sniff", Gen: func(r *hysim.Rand, tier string) *hysim.Script { return genC03Sniff(r, tier, r.Chance(1, 4)) }, Exec: execC03Sniff})
 }
 
 func genC03Sniff(r *hysim.Rand, tier string, corner bool) *hysim.Script {
@@ -404,8 +402,8 @@ func (w *c03SniffWorld) quicOp(op hysim.Op, other []byte) {
 	}
 }
 
-// form applies the split between the two parts to a datagram's first byte: c03sniff keeps to the
-// long-header form (the only one an Initial packet can have), c03sniffx is the corner without it.
+// form applies the stratum to a datagram's first byte: most runs keep to the long-header form (the
+// only one an Initial packet can have), the corner stratum clears the bit.
 func (w *c03SniffWorld) form(in []byte) []byte {
 	if len(in) == 0 {
 		return in
